@@ -1,4 +1,5 @@
 import ArroyProofs.AuditCmd
 import ArroyProofs.Properties.C11
 import ArroyProofs.Properties.C11Real
+import ArroyProofs.Properties.C11Reported
 #audit Arroy.C11
